@@ -82,7 +82,8 @@ def step : Sexp → Option Sexp
         list (atom "stmts" :: ss.map itemS),
         list (atom "fp" :: all),
         list (atom "regex" :: (if known then [atom "skipped"] else all)),
-        list (atom "hist" :: hv)])
+        list (atom "hist" :: hv),
+        list (atom "lost" :: hists.map fun (f, ms) => ofBool (KnownRequestLost f ms))])
   | _ => none
 
 end C19Driver
